@@ -377,6 +377,17 @@ func scenarios(r *evid.Run) []scenario {
 		s = append(s, "can:0")
 		all = append(all, scenario{Name: fmt.Sprintf("activating-timing%+d", k-2), Kind: "dpos", Regime: "activating", NStake: 1, Seed: s, Depth: dt})
 	}
+	// Vote expiry: a vote of half the rights cast at base+9 is locked until base+12 (lock time =
+	// block height + 3, DPoSV2MinVotesLockTime shrunk to 2); the seeds stop at base+10..base+13,
+	// so the first explored operation (renew among them) lands at every height in
+	// [LockTime-1, LockTime+2]; wait (6 blocks) then crosses the expiry of the renewed vote.
+	for k := 1; k <= 4; k++ {
+		s := []string{"reg:1", "stk:0", "wait", "vote:0:1:h"}
+		for j := 0; j < k; j++ {
+			s = append(s, "tick")
+		}
+		all = append(all, scenario{Name: fmt.Sprintf("vote-expiry%+d", k-2), Kind: "dpos", Regime: "pre", NStake: 1, Seed: s, Depth: dt})
+	}
 	if only := os.Getenv("VERIF_C28_ONLY"); only != "" { // development aid
 		var sel []scenario
 		for _, s := range all {
